@@ -1,2 +1,19 @@
 import SaramaVerif.Driver.ProducerTrace
-def main : IO Unit := Driver.ProducerTrace.main
+import SaramaVerif.Driver.FeederTrace
+/- C12 driver: producer traces (reset/ev/bb/end lines) and consumer feeder traces (creset/cf lines) -/
+structure Both where
+  p : Driver.ProducerTrace.DS
+  c : Driver.FeederTrace.DS
+
+def bothStep (b : Both) (t : List String) : Both × String :=
+  match t with
+  | "creset" :: _ | "cf" :: _ =>
+    let r := Driver.FeederTrace.step b.c t
+    ({ b with c := r.1 }, r.2)
+  | _ =>
+    let r := Driver.ProducerTrace.step b.p t
+    ({ b with p := r.1 }, r.2)
+
+def main : IO Unit := do
+  Driver.loop (← IO.getStdin) (← IO.getStdout) bothStep
+    { p := { st := Model.Producer.init { retryMax := 0, icepts := 0, idem := false }, failed := false }, c := {} }
